@@ -28,6 +28,7 @@ import os
 import concurrent.futures
 
 import vlib
+import wakercheck
 
 LEVEL = "model_checking"
 META = {
@@ -252,6 +253,8 @@ def _witnesses(ctx, binary, opendevs, departs, covered):
 def run(ctx):
     binary = vlib.build(ctx, "c16")
     opendevs = [d for d in vlib.open_devs(ctx.prop) if d in DEVS]
+    # 0. the barrier this replay engine (and those of C18, C25) drives the stream goroutines with: spec/Waker.tla
+    wakercheck.run(ctx)
 
     # 1. model: corrected design
     rc = vlib.tlc(ctx, "FileStream", _cfg(3, view=True), coverage=True, label="FileStream-coverage", timeout=600)
